@@ -3,13 +3,13 @@ import ExaModel.Driver.Util
 /- Line protocol for M-Reload.  One output line per input line; the state is the `World`.
 
    reload init
-   reload load <ok|syn:k|exc:k|missing|valid> <procs> <nbr>*     → ok | fail
+   reload load <ok|first|syn:k|exc:k|missing> <procs> <nbr>*     → ok | fail
         nbr   = name/key/fams/adj/routes      fams = 1.2   adj = 0|1
         route = n:f:a:h:g  |  n:f:a:h:g:w:p   (watchdog w, parked p)      routes comma separated, - = none
    reload nbrs | procs | peers | ribs | dirty
    reload rib <name>
    reload api <name> add <route> <force> | reload api <name> del <n> <f>
-   reload looptop|lost|est|start <name>
+   reload looptop|lost|est|start|sendupd <name>
    reload drain <name>                                            → events, `;` separated
 -/
 namespace Exa.Driver.Reload
@@ -36,7 +36,7 @@ def nbr? (s : String) : Option Nbr :=
 def fault? (s : String) : Option (Option Fault) :=
   if s = "ok" then some none
   else if s = "missing" then some (some .missingFile)
-  else if s = "valid" then some (some .validation)
+  else if s = "first" then some (some .firstLine)
   else match s.splitOn ":" with
     | ["syn", k] => k.toNat?.map (fun k => some (.syntax k))
     | ["exc", k] => k.toNat?.map (fun k => some (.exception k))
@@ -121,6 +121,20 @@ def reloadLine (w : World) (ws : List String) : World × String :=
     | some a =>
       match AList.lookup a w.peers, AList.lookup a w.ribs with
       | some p, some s => if p.up then (w.setRib a (s.step .start).1, "ok") else (w, "down")
+      | _, _ => (w, "none")
+    | none => bad
+  | ["sendupd", name] =>
+    -- one call of `_send_route_updates` run to the end of its generator: a generator is created only
+    -- if none is in flight
+    match name.toNat? with
+    | some a =>
+      match AList.lookup a w.peers, AList.lookup a w.ribs with
+      | some p, some s =>
+        if p.up then
+          let s1 := if s.inflight.isNone then (s.step .start).1 else s
+          let r := s1.finish
+          (w.setRib a r.1, joinWith ";" (r.2.map showEv))
+        else (w, "down")
       | _, _ => (w, "none")
     | none => bad
   | ["drain", name] =>
